@@ -1,5 +1,5 @@
 (* C11 — Saving a model to .ode and loading it back preserves the model. *)
-From GX Require Import Base Expr Topo Ode Target Sem Codegen Load Save Perm Annot LoadPerm SaveLoad Parse.
+From GX Require Import Base Expr Topo Ode Target Sem Codegen Load Save Perm Annot LoadPerm SaveLoad Parse ParseItems.
 From Coq Require Import Permutation.
 Open Scope string_scope.
 Open Scope list_scope.
@@ -99,3 +99,19 @@ Theorem C11_the_written_form_determines_the_expression :
   forall a b, writable a -> writable b -> print_expr a = print_expr b -> a = b.
 Proof. exact print_expr_injective. Qed.
 Print Assumptions C11_the_written_form_determines_the_expression.
+
+(* one level closer to the file: the saved model written out as token text (every right-hand side and declared value a
+   token sequence) and read by the verified parser loads to an equivalent model - for every loaded model whose saved items
+   are writable, i.e. none of whose names is a keyword of the expression grammar *)
+Theorem C11_the_token_text_of_the_saved_model_loads_to_an_equivalent_model :
+  forall items o,
+    load items = Ok o ->
+    (forall i, In i (save_items (o_states o) (o_params o) (assigns o)) -> writable_item i) ->
+    exists o', load_tokens (print_items (save_items (o_states o) (o_params o) (assigns o))) = Some (Ok o') /\ ode_equiv o o'.
+Proof. exact save_print_load. Qed.
+Print Assumptions C11_the_token_text_of_the_saved_model_loads_to_an_equivalent_model.
+
+Theorem C11_reading_the_token_text_of_an_item_list_gives_the_item_list :
+  forall items, (forall i, In i items -> writable_item i) -> parse_items (print_items items) = Some items.
+Proof. exact parse_print_items. Qed.
+Print Assumptions C11_reading_the_token_text_of_an_item_list_gives_the_item_list.
